@@ -640,6 +640,19 @@ def st_twostep(draw, decades=(-2.0, 3.0), variant=None):
         a0 = need * (1.0 + 10.0 ** draw(_f(-2.0, -0.5)))
         return {"family": "twostep", "Tn": draw(st_tn(decades)), "x": x, "a0": a0, "aL": aL, "aH": aH,
                 "m": m, "P0": 10.0 ** draw(_f(-1.0, 2.0))}
+    if variant == "steepT":
+        # the low-T enthalpy stays positive only down to 0.55-0.9 Tn: c_b^2 changes by 10-30 % between Tn and T-, the
+        # Jouguet velocity of the template model fitted at Tn lies up to 0.1 below the true one (round-4 seeds:
+        # windows derived from the template model, sound speeds taken at the wrong temperature)
+        aL = draw(_f(0.3, 0.8))
+        aH = aL * draw(_f(0.15, 0.7))
+        m = aL * (1.0 + 10.0 ** draw(_f(-0.5, 0.3)))
+        x = draw(_f(0.6, 0.97))
+        r = draw(_f(0.55, 0.9))
+        need = max(aL * m / (r * x) ** 2 - aL * aL, aH * (m - aL + aH) / (r * x) ** 2 - aH * aH, 0.05)
+        a0 = need * (1.0 + 10.0 ** draw(_f(-2.0, -0.5)))
+        return {"family": "twostep", "Tn": draw(st_tn(decades)), "x": x, "a0": a0, "aL": aL, "aH": aH,
+                "m": m, "P0": 10.0 ** draw(_f(-1.0, 2.0))}
     aL = draw(_f(0.05, 0.5))
     aH = aL * draw(_f(0.0, 0.9))
     m = aL * (1.0 + 10.0 ** draw(_f(-1.0, 0.6)))
@@ -675,14 +688,24 @@ def st_cubic(draw, decades=(-2.0, 3.0), family="cubic"):
     return {"family": family, "Tn": draw(st_tn(decades)), "g": g, "A": A, "lam": lam, "a": a, "y": y}
 
 
-def st_eos(families=ANALYTIC_FAMILIES, tn_decades=(-2.0, 3.0), strong=None, weights=None):
+@st.composite
+def st_twostep_mix(draw, decades=(-2.0, 3.0), variants=("plain",)):
+    var = draw(st.sampled_from(list(variants)))
+    spec = draw(st_twostep(decades, None if var == "plain" else var))
+    if var != "plain":
+        spec[var] = True
+    return spec
+
+
+def st_eos(families=ANALYTIC_FAMILIES, tn_decades=(-2.0, 3.0), strong=None, weights=None,
+           twostep_variants=("plain",)):
     """Strategy over EOS specs.  `families`: subset of FAMILIES; `weights`: optional dict of integer
     weights; `strong`: force alpha_n > ~0.35 above its lower bound (True) / below (False) for the
     bag and template families (None: mixed, ~30 % strong)."""
     table = {
         "bag": st_bag(tn_decades, strong),
         "template": st_template(tn_decades, strong),
-        "twostep": st_twostep(tn_decades),
+        "twostep": st_twostep_mix(tn_decades, twostep_variants),
         "cubic": st_cubic(tn_decades, "cubic"),
         "traced": st_cubic((max(tn_decades[0], -2.0), min(tn_decades[1], 3.0)), "traced"),
     }
